@@ -387,8 +387,9 @@ def dumpCustom (pfx : String) (base : Nat) (pt : UInt8) (min : Nat) (d : Bytes) 
   | _ => pure ()
   return o
 
-/-- The view dump of PROTOCOL.md §5 for `kind` on `d`, keys prefixed by `pfx`. -/
-def dumpView (pfx : String) (kind : PKind) (d : Bytes) : Out :=
+/-- The view dump of PROTOCOL.md §5 for `kind` on `d`, keys prefixed by `pfx`, without the `debug`
+    key. -/
+def dumpViewKeys (pfx : String) (kind : PKind) (d : Bytes) : Out :=
   let typed (k : Kind) : Out :=
     let r := Fast.kindParse k d
     let o : Out := #[(pfx ++ "res", resP r)]
@@ -448,6 +449,14 @@ def dumpView (pfx : String) (kind : PKind) (d : Bytes) : Out :=
   | .rpsi => fci .rpsi "rpsi"
   | .pli => fci .pli ""
   | .custom pt min => dumpCustom pfx 0 pt min d
+
+/-- The view dump of PROTOCOL.md §5. `debug` (the harness formats every parsed value with `{:?}` and
+    `{:#?}`; the model's values have no `Debug` text to panic in): `debug=ok` exactly when the
+    view's `res` is `ok`. -/
+def dumpView (pfx : String) (kind : PKind) (d : Bytes) : Out :=
+  let o := dumpViewKeys pfx kind d
+  -- every view starts with its `res` key
+  if o[0]? == some (pfx ++ "res", "ok") then o.push (pfx ++ "debug", "ok") else o
 
 /-- `dumpView` followed by `again_same` (PROTOCOL.md §4.1): the model's accessors are functions of
     the parsed value, a second call or another call order cannot change them: always `true`; not
